@@ -364,15 +364,21 @@ class SampleFileListAdapter(Adapter):
 
 
     def _decode(self, obj, context, path):
-        patch_entry = cast(PatchEntry, obj)
+        # one patch, or all the patches of a performance (a sample used by
+        # several of them is still a single file)
+        if isinstance(obj, (list, tuple)):
+            patch_entries = cast(List[PatchEntry], obj)
+        else:
+            patch_entries = [cast(PatchEntry, obj)]
         sc = SampleFileAdapter(Pass)
 
         sample_files = {}
-        for partial_entry in patch_entry.partial_entries:
-            for sample_entry in partial_entry.sample_entries:
-                if sample_entry.index not in sample_files.keys():
-                    sample_file = sc._decode(sample_entry, context, path)
-                    sample_files[sample_entry.index] = sample_file
+        for patch_entry in patch_entries:
+            for partial_entry in patch_entry.partial_entries:
+                for sample_entry in partial_entry.sample_entries:
+                    if sample_entry.index not in sample_files.keys():
+                        sample_file = sc._decode(sample_entry, context, path)
+                        sample_files[sample_entry.index] = sample_file
 
         return list(sample_files.values())
 
